@@ -340,7 +340,7 @@ GhostOf(s) ==
   [req |-> [id \in ids |->
               LET qs == {q \in s.pending : q.id = id}
                   q1 == CHOOSE q \in qs : TRUE
-              IN [cnt |-> Cardinality(qs), due |-> q1.due, oracle |-> q1.oracle, ctx |-> q1.ctx]],
+              IN [cnt |-> Cardinality(qs), due |-> q1.due, oracle |-> q1.oracle, ctx |-> q1.ctx, ctxH |-> q1.ctx]],
    ful |-> EmptyF, lost |-> 0, lostO |-> {}, zh |-> 0]
 
 Changed(s, t) ==
@@ -357,12 +357,16 @@ GhostStep(g, s, e, t) ==
   ELSE
   LET id == ReqId(e.who, s.h)
       mine == {q \in t.pending : q.id = id /\ q.due = s.h + e.n}
+      \* the service context that appeared with the request, as the service module shows it
+      \* (ctx is read from the request's own queue entry)
+      newctx == DOMAIN t.ctx \ DOMAIN s.ctx
       req2 == IF e.name = "RequestRandom" /\ e.ok
               THEN Put(g.req, id,
                      IF id \in DOMAIN g.req
                      THEN [g.req[id] EXCEPT !.cnt = @ + 1]
                      ELSE [cnt |-> 1, due |-> s.h + e.n, oracle |-> e.oracle,
-                           ctx |-> IF mine # {} THEN (CHOOSE q \in mine : TRUE).ctx ELSE ""])
+                           ctx |-> IF mine # {} THEN (CHOOSE q \in mine : TRUE).ctx ELSE "",
+                           ctxH |-> IF e.oracle /\ Cardinality(newctx) = 1 THEN CHOOSE c \in newctx : TRUE ELSE ""])
               ELSE g.req
       ch == Changed(s, t)
       rep == Replaced(s, e)
@@ -421,6 +425,16 @@ C18_Once(s, e, t, g) ==
          (Single(g, id) /\ g.req[id].oracle /\ g.req[id].ctx = e.ctx /\ e.ctx # ""
             /\ e.ctx \notin g.lostO /\ id \notin DOMAIN s.results)
          => id \in Changed(s, t)
+  \* ... and with the request's context taken from the service module's state in the step of the
+  \* accepted request (the context that appeared), not from the request's own queue entry
+  /\ (e.name = "Respond" /\ e.ok /\ e.kind = "seed") =>
+       \A id \in DOMAIN g.req :
+         (Single(g, id) /\ g.req[id].oracle /\ g.req[id].ctxH = e.ctx /\ e.ctx # ""
+            /\ id \notin DOMAIN s.results)
+         => id \in Changed(s, t)
+  \* a result for an oracle request appears only with the seed response for THAT context
+  /\ \A id \in Changed(s, t) :
+       (Single(g, id) /\ g.req[id].oracle /\ g.req[id].ctxH # "") => e.ctx = g.req[id].ctxH
 
 (* C18 range / pure: verdicts of the harness on every value written *)
 C18_Range(s, e, t) ==
